@@ -5,6 +5,7 @@ import Driver.FileSink
 import Driver.Sinks
 import Driver.Json
 import Driver.CloudEvents
+import Driver.Encrypt
 open Driver
 
 def main (args : List String) : IO UInt32 := do
@@ -18,4 +19,5 @@ def main (args : List String) : IO UInt32 := do
   | ["sinks"] => loop stdin stdout Driver.Sinks.stepLine []; return 0
   | ["json"] => loop stdin stdout Driver.Json.stepLine (); return 0
   | ["ce"] => loop stdin stdout Driver.CloudEvents.stepLine (); return 0
+  | ["encrypt"] => loop stdin stdout Driver.Encrypt.stepLine { wrapper := none, salt := none, info := none }; return 0
   | _ => IO.eprintln "usage: evldriver <model>"; return 2
